@@ -51,7 +51,17 @@ Verdict eval_c03(const Scene &s) {
             // segments (and with them the displayed end points); route() must still join the attachments.
             bool endsMayMove = !which && c.type == 2 && s.cfg.opt[Avoid::nudgeOrthogonalSegmentsConnectedToShapes];
             std::string bad = routeInvalid(r, c.a, c.b, s.shapes, 1e-7, nullptr, endsMayMove);
-            if (!bad.empty()) v.fail(fmt("connector %zu %s: %s; route %s", i, which ? "route()" : "displayRoute()", bad.c_str(), ptsStr(r).c_str()), "invalid-route");
+            if (!bad.empty()) {
+                // known finding F22: polyline routing among shapes whose (buffered) routing polygons touch or overlap
+                bool close = false;
+                for (size_t a = 0; a < s.shapes.size(); a++) for (size_t b2 = a + 1; b2 < s.shapes.size(); b2++) {
+                    LD dmin = 1e300;
+                    for (size_t k = 0; k < s.shapes[a].size(); k++) dmin = std::min(dmin, segPolyDist(s.shapes[a][k], s.shapes[a][(k + 1) % s.shapes[a].size()], s.shapes[b2]));
+                    if (dmin <= 2 * buf + 1e-9) close = true;
+                }
+                v.fail(fmt("connector %zu %s: %s; route %s", i, which ? "route()" : "displayRoute()", bad.c_str(), ptsStr(r).c_str()),
+                       (close && c.type == 1) ? "F22-polyline-invalid-route-among-close-shapes" : "invalid-route");
+            }
         }
         if (R.disp[i].size() > 2) v.cls("route-bends");
     }
